@@ -106,6 +106,7 @@ type Exec struct {
 }
 
 type pathResult struct {
+	hasDeeper     bool
 	siteReach     map[string]int
 	siteSym       map[string]int
 	discharged    int
